@@ -90,7 +90,9 @@ def dtype_monitor(rep, rng, ops, what):
     ref_d = dense(xf, Xf)
     for label, build in (("integer values on an integer grid", lambda: dense_raw(x, Xi)),
                          ("integer values on a float grid", lambda: dense_raw(xf, Xi)),
-                         ("float values on an integer grid", lambda: dense_raw(x, Xf))):
+                         ("float values on an integer grid", lambda: dense_raw(x, Xf)),
+                         ("float values stored column-major (Fortran order)", lambda: dense_raw(xf, np.asfortranarray(Xf))),
+                         ("float values given as a transposed view", lambda: dense_raw(xf, np.ascontiguousarray(Xf.T).T))):
         bad = []
         for name, fn in ops.items():
             with warnings.catch_warnings():
